@@ -255,6 +255,11 @@ impl Property for C04 {
                 *j.counters.entry("not_evaluated_uncompilable".into()).or_default() += 1;
                 if let Some(d) = diags.iter().find(|d| d.file == "gen") {
                     *j.counters.entry(format!("uncompilable:{}:{}", d.code, d.message.chars().take(60).collect::<String>())).or_default() += 1;
+                    // a type that does not compile accepts nothing. Duplicate definitions (E0428) are
+                    // the self-referential-root finding listed under C01 (KF-023) and stay with C01.
+                    if d.code != "E0428" {
+                        j.violations.push(Violation::new("generated-type-does-not-compile", format!("{} {} | {}", d.code, d.message, d.snippet)));
+                    }
                 }
                 return Ok(j);
             }
